@@ -11,7 +11,7 @@ CONSTANTS
   Methods = {"GET"}
   TTLs = {1}
   Outcomes = {"cacheable", "uncacheable"}
-  LoadResults = {"ok", "notfound", "error", "cut_s", "cut_r", "cut_c", "badstatus"}
+  LoadResults = {"ok", "notfound", "error", "cut_s", "cut_r", "cut_c", "cut_m", "badstatus"}
   SaveResults = {TRUE, FALSE}
   Jumps = {1}
   MaxTicks = 2
